@@ -70,6 +70,10 @@ func (tps *TPS) SetShareData(shareData []byte) error {
 		return err
 	}
 
+	if len(tps.storedData.PublicKeys) < len(tps.parties) {
+		return fmt.Errorf("share data has %d public keys but there are %d parties", len(tps.storedData.PublicKeys), len(tps.parties))
+	}
+
 	tps.publicKeysOfParties = make(map[uint16][]byte)
 
 	for i, p := range tps.parties {
